@@ -504,15 +504,24 @@ impl Axecutor {
         for (i, area) in self.state.memory.iter().enumerate() {
             if start_addr == area.start {
                 area_to_resize = Some(i);
+                continue;
             }
 
             // Make sure the new length doesn't overlap with any other area after it
-            if start_addr + new_size > area.start {
+            if area.start >= start_addr
+                && (area.start as u128) < start_addr as u128 + new_size as u128
+            {
                 return Err(AxError::from(format!(
                     "Cannot resize section at address {:#x} to length {}, as it overlaps with another section starting at {:#x} (len={})",
                     start_addr, new_size, area.start, area.length
                 )));
             }
+        }
+
+        if start_addr.checked_add(new_size).is_none() {
+            return Err(AxError::from(format!(
+                "Cannot resize section at address {start_addr:#x} to length {new_size}, end address does not fit into 64 bits"
+            )));
         }
 
         if let Some(i) = area_to_resize {
